@@ -109,13 +109,13 @@ impl Formatter {
             // Multi-line docstring
             self.writer.writeln("\"\"\"");
             for line in trimmed.lines() {
-                self.writer.writeln(&line.replace('\\', "\\\\"));
+                self.writer.writeln(&escape_docstring_line(line, false));
             }
             self.writer.writeln("\"\"\"");
         } else {
             // Single-line docstring
             self.writer.write("\"\"\"");
-            self.writer.write(&trimmed.replace('\\', "\\\\"));
+            self.writer.write(&escape_docstring_line(trimmed, true));
             self.writer.writeln("\"\"\"");
         }
     }
@@ -149,7 +149,7 @@ impl Formatter {
             }
             ImportKind::Python(name) => {
                 self.writer.write("import python \"");
-                self.writer.write(name);
+                self.writer.write(&escape_string(name));
                 self.writer.write("\"");
                 if let Some(alias) = &import.alias {
                     self.writer.write(" as ");
@@ -1175,6 +1175,10 @@ impl Formatter {
             Pattern::Constructor(name, patterns) => {
                 // The parser stores qualified patterns as `Type::Variant`; the surface syntax is `Type.Variant`.
                 self.writer.write(&name.replace("::", "."));
+                // `Foo()` without sub-patterns must keep its parentheses: a bare `Foo` is a binding.
+                if patterns.is_empty() && !name.contains("::") {
+                    self.writer.write("()");
+                }
                 if !patterns.is_empty() {
                     self.writer.write("(");
                     for (i, p) in patterns.iter().enumerate() {
@@ -1201,6 +1205,35 @@ impl Formatter {
 }
 
 /// Escape special characters in a string
+/// Text of one docstring line between the `"""` delimiters: backslashes are doubled, a run of three quotes would end the
+/// literal early and a quote directly before the closing delimiter would merge with it, so those quotes are escaped.
+fn escape_docstring_line(line: &str, closes_on_same_line: bool) -> String {
+    let chars: Vec<char> = line.chars().collect();
+    let mut out = String::new();
+    let mut i = 0;
+    while i < chars.len() {
+        if chars[i] == '"' {
+            let mut j = i;
+            while j < chars.len() && chars[j] == '"' {
+                j += 1;
+            }
+            let run = j - i;
+            let escape = run >= 3 || (closes_on_same_line && j == chars.len());
+            for _ in 0..run {
+                out.push_str(if escape { "\\\"" } else { "\"" });
+            }
+            i = j;
+        } else {
+            if chars[i] == '\\' {
+                out.push('\\');
+            }
+            out.push(chars[i]);
+            i += 1;
+        }
+    }
+    out
+}
+
 fn escape_string(s: &str) -> String {
     let mut result = String::new();
     for c in s.chars() {
